@@ -445,6 +445,57 @@ theorem decode_total (pkt : Bytes) :
     (pbBatchA .fixed (pkt.length + 1) [] pkt).1 ≤ pkt.length :=
   ⟨parse_terminates .fixed rfl pkt, msgpack_alloc_bounded pkt, tl_loop_alloc_bounded pkt, (pb_alloc_bounded .fixed pkt).2⟩
 
+/-! ## decoding is a function of the packet alone (reused parser + batch)
+
+  The receivers push every packet of a socket through ONE parser and ONE AddMetricsBatchBytes whose slices keep their
+  capacity and old elements. The model's `parse` has no state argument at all: every accumulator of the model starts from
+  a constant — `[]` for the batch (`mb.Reset()`), `{}` for a metric (`m.Reset()` at the top of both
+  …UnmarshalStatshouseMetric), `([], [])` for a map entry (`m.Key = m.Key[:0]; m.Value = m.Value[:0]`), `(0, 0)` for a
+  centroid (`*m = [2]float64{}`), and overwritten collections for MessagePack. That "the real decoder fed a SEQUENCE of
+  packets through one reused destination behaves like the stateless model on each packet" is therefore a correspondence
+  obligation: the harness decodes packet sequences (all formats interleaved, large packets first, zero / empty / omitted
+  fields later) through one reused parser+batch, diffs each result against the model's decode of that packet alone, and
+  re-decodes it with a fresh parser (oracle `stale-state-across-packets`).
+  Below the reused slot is made explicit for the Protobuf and MessagePack element readers: with the reset the result
+  does not depend on what the slot held; without it the previous packet leaks (so each reset line is necessary). -/
+
+/-- protobufUnmarshalCentroid writing into a slot that still holds `slot`; `reset` is the line `*m = [2]float64{}` -/
+def pbCentroidInto (reset : Bool) (slot : Nat × Nat) (d : Bytes) : Except Err (Nat × Nat) :=
+  pbCentroid (d.length + 1) (if reset then (0, 0) else slot) d
+
+/-- protobufUnmarshalFieldEntry into a reused tag slot; `reset` is `m.Key = m.Key[:0]; m.Value = m.Value[:0]` -/
+def pbEntryInto (reset : Bool) (slot : Bytes × Bytes) (d : Bytes) : Except Err (Bytes × Bytes) :=
+  pbEntry (d.length + 1) (if reset then ([], []) else slot) d
+
+/-- protobufUnmarshalStatshouseMetric / msgpackUnmarshalStatshouseMetric into a reused metric; `reset` is `m.Reset()` -/
+def pbMetricInto (v : Variant) (reset : Bool) (slot : Metric) (d : Bytes) : Except Err Metric :=
+  pbMetric v (d.length + 1) (if reset then {} else slot) d
+def mpFieldsInto (v : Variant) (reset : Bool) (slot : Metric) (n : Nat) (b : Bytes) : R Metric :=
+  (mpFields v n (if reset then {} else slot) b).res
+
+/-- With the resets the code has, what is decoded into a reused slot does not depend on what the slot held: it is the
+    model's decode of the bytes alone. -/
+theorem decode_ignores_destination (v : Variant) (d : Bytes) (n : Nat) :
+    (∀ s, pbCentroidInto true s d = pbCentroid (d.length + 1) (0, 0) d) ∧
+    (∀ s, pbEntryInto true s d = pbEntry (d.length + 1) ([], []) d) ∧
+    (∀ s, pbMetricInto v true s d = pbMetric v (d.length + 1) {} d) ∧
+    (∀ s, mpFieldsInto v true s n d = (mpFields v n {} d).res) :=
+  ⟨fun _ => rfl, fun _ => rfl, fun _ => rfl, fun _ => rfl⟩
+
+/-- Each reset is necessary (seeded bug C13-r3-2 is the first line): a proto3 centroid (3.0, count 0 — the count is not
+    on the wire) decoded into a slot that held (5, 7) keeps the stale count 7; a map entry without a value keeps the old
+    value; a metric without a name keeps the old name, in Protobuf and in MessagePack. -/
+theorem each_reset_is_needed :
+    pbCentroidInto false (5, 7) (pbEncCentroid (3, 0)) = .ok (3, 7) ∧
+    pbCentroidInto true (5, 7) (pbEncCentroid (3, 0)) = .ok (3, 0) ∧
+    pbEntryInto false ([1], [2]) (pbEncLen 1 [9]) = .ok ([9], [2]) ∧
+    pbEntryInto true ([1], [2]) (pbEncLen 1 [9]) = .ok ([9], []) ∧
+    pbMetricInto .fixed false { name := [111] } (pbEncTag 4 0 ++ pbEncV 5) = .ok { name := [111], ts := 5, mask := 16 } ∧
+    pbMetricInto .fixed true { name := [111] } (pbEncTag 4 0 ++ pbEncV 5) = .ok { ts := 5, mask := 16 } ∧
+    mpFieldsInto .fixed false { name := [111] } 1 (mpEncStr kTs ++ mpEncUint 5) = .ok ({ name := [111], ts := 5, mask := 16 }, []) ∧
+    mpFieldsInto .fixed true { name := [111] } 1 (mpEncStr kTs ++ mpEncUint 5) = .ok ({ ts := 5, mask := 16 }, []) := by
+  decide
+
 /-! ## cross-format agreement -/
 
 set_option maxRecDepth 100000 in
